@@ -405,6 +405,10 @@ def add(node: ir.Node, op, state: OptimizerState) -> ReturnValue:
         return None
     if isinstance(dim0, int) and isinstance(dim1, int):
         result_dim_value: int | ir.SymbolicDim = dim0 + dim1
+    elif (isinstance(dim0, int) and dim0 < 0) or (isinstance(dim1, int) and dim1 < 0):
+        # Symbolic dimensions are assumed to be non-negative (e.g. Abs is dropped on them):
+        # a symbolic value plus a negative constant does not satisfy that assumption.
+        return None
     else:
         result_dim_value = ir.SymbolicDim(f"{dim0}+{dim1}")
     output = _get_output(node, 0)
